@@ -91,6 +91,7 @@ def gen_history(r, states, nops, domain):
     live = [set() for _ in states]
     mapped = [dict() for _ in states]        # index -> list of decoded keys
     ops = []
+    ever = [set() for _ in states]
     dom = DOMAINS[domain]
     for _ in range(nops):
         s = r.randrange(len(states))
@@ -103,11 +104,20 @@ def gen_history(r, states, nops, domain):
                 choices = ['add', 'del', 'iterate', 'add_map', 'add_map', 'add_map', 'get_map', 'get_map', 'iterate_map', 'readd']
         else:
             choices += ['iterate']
+        gone = sorted(ever[s] - lv)
+        if gone and domain != 'wide':
+            choices += ['redel']
         op = r.choice(choices)
+        if op == 'redel':
+            # a second del_key on an index that was added once and is deleted now (a key completed and then failed, a purge loop run
+            # twice): it is idempotent - no other index may notice
+            ops.append([s, 'del_key', r.choice(gone), None])
+            continue
         if op == 'add':
             cand = [i for i in dom if i not in lv] or dom
             i = r.choice(cand) if domain != 'wide' else (min(cand) if r.random() < 0.9 else r.choice(cand))
             lv.add(i)
+            ever[s].add(i)
             mapped[s][i] = []
             ops.append([s, 'add_key', i, None])
         elif op == 'readd':
@@ -180,10 +190,12 @@ def gen_history(r, states, nops, domain):
 def valid_history(states, ops):
     """True when every call is one the contract allows (used to filter shrink candidates)"""
     live = [set() for _ in states]
+    ever = [set() for _ in states]
     mapped = [dict() for _ in states]
     for s, op, i, arg in ops:
         if op == 'add_key':
             live[s].add(i)
+            ever[s].add(i)
             mapped[s][i] = []
         elif op == 'iterate':
             pass
@@ -196,6 +208,8 @@ def valid_history(states, ops):
                     return False
                 elif sub == 'del_key':
                     live[s].discard(j)
+        elif op == 'del_key' and i in ever[s] and i not in live[s]:
+            pass        # a repeated del_key of a deleted index
         elif i not in live[s]:
             return False
         elif op == 'del_key':
